@@ -3,6 +3,7 @@ import random
 
 import jsonschema
 from jsonschema import FormatChecker, SchemaError, ValidationError
+from jsonschema.exceptions import best_match
 
 from vf import cand, templates as tp
 from vf.harness import HarnessEscape, Spec, esig, small
@@ -105,6 +106,12 @@ def check(d, schema, x, fc=False):
         if (r2 is None) != valid:
             return False, tag
         if r2 is not None:
+            try:
+                bm = best_match(v.iter_errors(x))
+            except Exception as e:
+                raise HarnessEscape(type(e).__name__)
+            if bm is None or esig(bm) != esig(r2):
+                return False, tag           # it must be best_match of the errors (the heuristic itself is not judged)
             if len(r2.context) != 0:
                 return False, tag
             s2 = esig(r2)
